@@ -484,9 +484,12 @@ def erased(prog, ex, P, tier):
         dict(cap=2, cause="stop", ops=[("tell", "A", 1), ("ask", "A", 2)]),
         dict(cap=1, cause="kill", ops=[("tell", "A", 1), ("tell", "A", 2)]),
         dict(cap=1, cause="drop", ops=[("tell_t", "A", 1, 5), ("ask_t", "A", 2, 7)]),
+        dict(cap=1, cause="stop", ops=[("tell", "A", 1), ("tell", "A", 2)]),
     ], "variant")
     s = Sim(prog, ex)
     s.spawn_actor(Script("A"), v["cap"])
+    if v["cause"] in ("stop", "kill"):
+        allow_time(s, ex)
     c1 = s.client("c1", v["ops"], ["A"])
     for i in range(len(v["ops"])):
         c1.routes[i] = pick(ex, list(c1.ROUTES), "route%d" % i)
@@ -843,7 +846,7 @@ def metrics_scn(prog, ex, P, tier):
 
 # ---- capacity configuration (C09, function level) ------------------------------------------
 def capacity_config(prog, ex, P, tier):
-    mode = pick(ex, ["symbolic-cap", "zero-cap", "default-32", "configured", "config-zero"], "mode")
+    mode = pick(ex, ["symbolic-cap", "zero-cap", "default-32", "configured", "config-zero", "spawn-then-configure"], "mode")
     s = Sim(prog, ex)
     w, it = s.w, s.it
     if mode == "symbolic-cap":
@@ -877,6 +880,11 @@ def capacity_config(prog, ex, P, tier):
     else:
         n1 = pick(ex, [1, 2, 3, 40], "first")
         n2 = pick(ex, [1, 7], "second")
+        if mode == "spawn-then-configure":
+            # an actor spawned BEFORE the default is configured gets 32; the configuration that
+            # follows still succeeds and governs every later spawn()
+            z = s.spawn_actor(Script("Z"), None)
+            ex.check("C09", z["mailbox"].cap == 32, "spawn() without configuration created a mailbox of %d" % z["mailbox"].cap)
         if mode == "config-zero":
             r0 = it.call_path("set_default_mailbox_capacity", [IntV(0, 64)])
             ex.check("C09", r0.variant == "Err", "set_default_mailbox_capacity(0) succeeded")
@@ -914,12 +922,20 @@ def deadlock_cycles(prog, ex, P, tier):
     """ask cycles of length 1..3 with the closing ask in a handler / on_start / on_run / on_stop,
     plain ask or ask_with_timeout, every creation order of the edges (the scheduler's choice)"""
     shape = pick(ex, ["self-handler", "self-on_run", "2cycle", "2cycle-timeout", "3cycle", "2cycle-on_stop", "2cycle-full-mailbox",
-                      "self-on_stop-after-run-err", "2cycle-on_stop-after-run-err", "self-on_start", "self-on_stop"], "shape")
+                      "self-on_stop-after-run-err", "2cycle-on_stop-after-run-err", "self-on_start", "self-on_stop"] + (["4cycle"] if tier != "quick" or P == "C12" else []), "shape")
     s = Sim(prog, ex)
     w = s.w
     A, B, C = Script("A"), Script("B"), Script("C")
+    D = Script("D")
     names = ["A"]
-    if shape == "self-handler":
+    if shape == "4cycle":
+        # A -> B -> C -> D -> A, and afterwards a survivor asks again from a hook
+        A.handler_actions = {1: [("ask", "B", 11)], 3: [("ask", "B", 31)]}
+        B.handler_actions = {11: [("ask", "C", 21)]}
+        C.handler_actions = {21: [("ask", "D", 41)]}
+        D.handler_actions = {41: [("ask", "A", 12)]}
+        names = ["A", "B", "C", "D"]
+    elif shape == "self-handler":
         A.handler_actions = {1: [("ask", "A", 2)]}
     elif shape == "self-on_run":
         A.on_run = [("false", 0)]
@@ -958,7 +974,7 @@ def deadlock_cycles(prog, ex, P, tier):
         B.handler_actions = {11: [("ask", "C", 21)]}
         C.handler_actions = {21: [("ask", "A", 12)]}
         names = ["A", "B", "C"]
-    for n, sc in (("A", A), ("B", B), ("C", C)):
+    for n, sc in (("A", A), ("B", B), ("C", C), ("D", D)):
         if n in names:
             s.spawn_actor(sc, 1 if (shape == "2cycle-full-mailbox" and n == "B") else 2)
     for n in names:
@@ -968,6 +984,9 @@ def deadlock_cycles(prog, ex, P, tier):
         s.client("c1", [("stop", "A")], ["A"])
     elif shape in ("self-on_stop-after-run-err", "2cycle-on_stop-after-run-err", "self-on_start"):
         s.client("c1", [("yield",)], ["A"])
+    elif shape == "4cycle":
+        # the second request (A asks B once more, from its handler) starts after the first is over
+        s.client("c1", [("ask", "A", 1), ("ask", "A", 3)], ["A"])
     elif shape == "2cycle-full-mailbox":
         s.client("c0", [("tell", "B", 5), ("tell", "B", 6)], ["B"])
         s.client("c1", [("yield",), ("ask", "A", 1)], ["A"])
@@ -979,6 +998,8 @@ def deadlock_cycles(prog, ex, P, tier):
     tr = finish(ex, s)
     panics = [e for e in tr.ev if e["ev"] == "panic"]
     dl = [e for e in panics if "Deadlock detected" in str(e.get("msg")) or "eadlock" in str(e.get("msg"))]
+    other = [e for e in tr.ev if e["ev"] == "task_panicked" and "eadlock detected" not in str(e.get("msg"))]
+    ex.check(P, not other, "after the deliberate deadlock panic another task panicked: %s" % [(e["task"], e["msg"][:80]) for e in other[:2]])
     if P == "C14":
         if shape != "2cycle-full-mailbox":
             ex.check("C14", len(dl) >= 1, "an ask cycle (%s) was closed without the deadlock panic" % shape)
@@ -1285,12 +1306,19 @@ def blocking(prog, ex, P, tier):
         # one deadline for the whole call: the mailbox frees up at t=3 (inside the timeout of 5), the reply would come at t=7
         dict(cap=1, hy={1: ("sleep", 3), 7: ("sleep", 1), 2: ("sleep", 3)}, ops=[("btell", "A", 1), ("btell", "A", 7), ("bask_t", "A", 2, 5)], other=None, end="drop"),
         dict(cap=1, hy={1: ("sleep", 3), 7: ("sleep", 1), 2: ("sleep", 3)}, ops=[("btell", "A", 1), ("btell", "A", 7), ("btell_t", "A", 2, 5), ("bask_t", "A", 3, 2)], other=None, end="drop"),
+        # the largest timeout there is
+        dict(cap=2, hy=0, ops=[("btell_t", "A", 1, "MAX"), ("bask_t", "A", 2, "MAX")], other=None, end="drop"),
+        # called from spawn_blocking (a thread that HAS a runtime handle): full mailbox, slow actor, then stop
+        dict(cap=1, hy=1, ops=[("btell", "A", 1), ("btell", "A", 2), ("btell", "A", 3)], other=None, end="stop-after", ctx="spawn_blocking"),
+        dict(cap=1, hy=1, ops=[("btell", "A", 1), ("btell", "A", 2), ("bask", "A", 3)], other=[("tell", "A", 4)], end="drop", ctx="spawn_blocking"),
     ], "variant")
-    PP = "C16" if P == "C16" else "C17"
+    PP = P if P in ("C16", "C02", "C01", "C13", "C10") else "C17"
     s = Sim(prog, ex)
     w = s.w
     s.spawn_actor(Script("A", handler_yields=(v["hy"] if isinstance(v["hy"], dict) else {"*": v["hy"]})), v["cap"])
-    th = s.client("thread", v["ops"], ["A"])
+    ops_ = list(v["ops"]) + ([("stop", "A")] if v["end"] == "stop-after" else [])
+    th = s.client("thread", ops_, ["A"])
+    th.in_runtime = v.get("ctx") == "spawn_blocking"
     if P == "C16":
         # the same calls through Box<dyn TellHandler> / Box<dyn AskHandler>
         for i, op in enumerate(v["ops"]):
@@ -1312,8 +1340,14 @@ def blocking(prog, ex, P, tier):
         try:
             mon(tr)
         except Violation as e:
-            raise Violation(P if P == "C16" else "C17", "blocking API%s: %s: %s" % (" through erased handles" if P == "C16" else "", e.prop, e.msg), e.detail)
+            raise Violation(PP, "blocking API%s: %s: %s" % (" through erased handles" if P == "C16" else "", e.prop, e.msg), e.detail)
     ops = tr.ops()
+    for o in ops.values():
+        if len(o["op"]) > 3 and o["op"][3] == "MAX":
+            o["op"] = list(o["op"][:3]) + [w.DURATION_MAX_NS]
+    # a panic in the CALLER of a blocking function is never an acceptable outcome
+    thr = [t for t in w.tasks if t.name == "client:thread"]
+    ex.check(PP, not thr or thr[0].state != "panicked", "the calling thread panicked inside the blocking API: %s" % (thr[0].panic_msg if thr else ""))
     for o in ops.values():
         k = o["op"][0]
         if k not in ("btell", "bask", "btell_t", "bask_t", "tell_blocking", "ask_blocking"):
